@@ -41,12 +41,12 @@ func (r *runner) readOptional(s *cryptobyte.String, ids []int, j int, ref []byte
 	var wantB bool
 	if presentRef && spec {
 		switch e.k {
-		case kOptInt, kOptBigInt:
+		case kOptInt, kOptBigInt, kOptInt64, kOptUint64:
 			if e.present {
 				wantZ = e.z
 			} else if t2, c2, n2, ok2 := refTLV(content); !ok2 || t2 != 0x02 || n2 != len(content) {
 				spec = false
-			} else if z, okz := refInteger(c2); !okz || (e.k == kOptInt && !z.IsInt64()) {
+			} else if z, okz := refInteger(c2); !okz || ((e.k == kOptInt || e.k == kOptInt64) && !z.IsInt64()) || (e.k == kOptUint64 && !z.IsUint64()) {
 				spec = false
 			} else {
 				wantZ = z
@@ -113,6 +113,30 @@ func (r *runner) readOptional(s *cryptobyte.String, ids []int, j int, ref []byte
 			want = wantZ.Int64()
 		}
 		if int64(x) != want {
+			bad = fmt.Sprintf("got %d want %d", x, want)
+		}
+	case kOptInt64:
+		reader = "ReadOptionalASN1Integer(*int64)"
+		r.phase = reader
+		x := int64(99)
+		ok = s.ReadOptionalASN1Integer(&x, e.tag, int64(e.defI))
+		want := e.defI
+		if presentRef && spec {
+			want = wantZ.Int64()
+		}
+		if x != want {
+			bad = fmt.Sprintf("got %d want %d", x, want)
+		}
+	case kOptUint64:
+		reader = "ReadOptionalASN1Integer(*uint64)"
+		r.phase = reader
+		x := uint64(99)
+		ok = s.ReadOptionalASN1Integer(&x, e.tag, uint64(e.defI))
+		want := uint64(e.defI)
+		if presentRef && spec {
+			want = wantZ.Uint64()
+		}
+		if x != want {
 			bad = fmt.Sprintf("got %d want %d", x, want)
 		}
 	case kOptBigInt:
